@@ -1,5 +1,9 @@
 import SdcModel.MdibDescr
-/-! # C03 — transactions are atomic (property theorems) -/
+import SdcModel.Proofs.MdibMono
+/-! # C03 — transactions are atomic (property theorems over the provider model)
+A transaction that does not commit (application raised, API call rejected, consistency check failed) returns exactly the
+tables it started from and an empty result; a commit over well-formed tables cannot die half-way. -/
+set_option linter.unusedSimpArgs false
 namespace Sdc.C03
 open Sdc.Mdib
 
@@ -8,5 +12,72 @@ theorem abort_noop_state (t : Tables) (s : SScript) (h : s.raiseAtEnd = true) :
     (runS t s).1 = t ∧ (runS t s).2.1 = {} := by
   unfold runS
   split <;> simp [h]
+
+theorem abort_noop_context (t : Tables) (s : CScript) (h : s.raiseAtEnd = true) :
+    (runC t s).1 = t ∧ (runC t s).2.1 = {} := by
+  unfold runC
+  split <;> simp [h]
+
+theorem abort_noop_descriptor (t : Tables) (s : DScript) (h : s.raiseAtEnd = true) :
+    (runD t s).1 = t ∧ (runD t s).2.1 = {} := by
+  unfold runD
+  split <;> simp [h]
+
+/-- outcome `aborted` / `rejected` (a call the API rejected propagated out of the block) ⇒ tables equal, nothing reported -/
+theorem rejected_noop_state (t : Tables) (s : SScript) (h : (runS t s).2.2 = .rejected ∨ (runS t s).2.2 = .aborted) :
+    (runS t s).1 = t ∧ (runS t s).2.1 = {} := by
+  revert h; unfold runS
+  split
+  · simp
+  · split
+    · simp
+    · split
+      · simp
+      · split <;> simp
+
+theorem rejected_noop_context (t : Tables) (s : CScript) (h : (runC t s).2.2 = .rejected ∨ (runC t s).2.2 = .aborted) :
+    (runC t s).1 = t ∧ (runC t s).2.1 = {} := by
+  revert h; unfold runC
+  split
+  · simp
+  · split
+    · simp
+    · split
+      · simp
+      · split <;> simp
+
+theorem rejected_noop_descriptor (t : Tables) (s : DScript) (h : (runD t s).2.2 = .rejected ∨ (runD t s).2.2 = .aborted) :
+    (runD t s).1 = t ∧ (runD t s).2.1 = {} := by
+  revert h; unfold runD
+  split
+  · simp
+  · split
+    · simp
+    · split
+      · simp
+      · split <;> simp
+
+/-- a descriptor commit refused by the consistency check has changed nothing (the check runs before the first write) -/
+theorem commit_rejected_noop (t : Tables) (tx : DTx) (h : consistentD t tx = false) :
+    (commitD t tx).1 = t ∧ (commitD t tx).2.1 = {} := by
+  unfold commitD
+  split
+  · simp
+  · simp [h]
+
+/-- a state transaction over well-formed tables never dies in the middle of its commit -/
+theorem commit_never_fails (t : Tables) (s : SScript) (hw : WF t) : (runS t s).2.2 ≠ .commitFailed := (runS_ok hw s).1
+
+/-- a context transaction over well-formed tables never dies in the middle of its commit, provided the handles generated
+    for new context states are fresh (not the handle of a live context state) -/
+theorem commit_never_fails_context (t : Tables) (s : CScript) (hw : WF t) (hf : FreshUuids t s) :
+    (runC t s).2.2 ≠ .commitFailed := runC_ok hw s hf
+
+/-- the hypothesis is needed: a colliding generated handle kills the commit after MdibVersion was incremented -/
+theorem commit_fails_on_uuid_collision :
+    ∃ (t : Tables) (s : CScript), WF t ∧ (runC t s).2.2 = .commitFailed ∧ (runC t s).1 ≠ t :=
+  ⟨{ ver := 1, descrs := [⟨4, none, .context, 0, 0, some 4⟩],
+     ctx := [{ h := 10, dh := 4, dv := 0, sv := 2, body := 0, assoc := .no, bindV := none, unbindV := none, bindT := none, unbindT := none }] },
+   ⟨[.mk 4 10 false false 8 0], false, false⟩, by decide⟩
 
 end Sdc.C03
